@@ -377,3 +377,659 @@ def reachable(msg):
                 if x.ref is not None:
                     todo.append(x.ref)
     return list(seen.values())
+
+
+# ======================================================================================
+# 3. the reference codec (protobuf encoding guide; nothing of pilota is consulted here)
+# ======================================================================================
+#   wire types: 0 VARINT (int32 int64 uint32 uint64 sint32 sint64 bool enum), 1 I64 (fixed64
+#   sfixed64 double), 2 LEN (string bytes embedded messages packed repeated fields), 3 SGROUP,
+#   4 EGROUP, 5 I32 (fixed32 sfixed32 float).  tag = (field_number << 3) | wire_type, a varint.
+#   int32/int64/enum negative values are sign-extended to 64 bits (ten bytes); sintN use ZigZag;
+#   fixed widths are little-endian; a map field is `repeated Entry { K key = 1; V value = 2; }`.
+
+M64 = (1 << 64) - 1
+M32 = (1 << 32) - 1
+WT_VARINT, WT_I64, WT_LEN, WT_SGROUP, WT_EGROUP, WT_I32 = 0, 1, 2, 3, 4, 5
+WIRE_TYPE = {"double": 1, "float": 5, "int32": 0, "int64": 0, "uint32": 0, "uint64": 0, "sint32": 0,
+             "sint64": 0, "fixed32": 5, "fixed64": 1, "sfixed32": 5, "sfixed64": 1, "bool": 0,
+             "string": 2, "bytes": 2, "enum": 0, "message": 2}
+MAX_FIELD = (1 << 29) - 1
+RECURSION_LIMIT = 100     # the documented nesting limit (pilota/src/prost/mod.rs, as in C++)
+
+
+class RefError(Exception):
+    def __init__(self, cls, msg=""):
+        Exception.__init__(self, "%s %s" % (cls, msg))
+        self.cls = cls
+
+
+def F32(bits):
+    return ("f", 32, bits & M32)
+
+
+def F64(bits):
+    return ("f", 64, bits & M64)
+
+
+def enc_varint(n):
+    n &= M64
+    out = bytearray()
+    while True:
+        b = n & 0x7f
+        n >>= 7
+        if n:
+            out.append(b | 0x80)
+        else:
+            out.append(b)
+            return bytes(out)
+
+
+def enc_tag(number, wt):
+    return enc_varint((number << 3) | wt)
+
+
+def zigzag(n, bits):
+    mask = (1 << bits) - 1
+    return ((n << 1) ^ (n >> (bits - 1))) & mask
+
+
+def unzigzag(u):
+    return (u >> 1) ^ -(u & 1)
+
+
+def to_signed(u, bits):
+    u &= (1 << bits) - 1
+    return u - (1 << bits) if u >> (bits - 1) else u
+
+
+def scalar_default(ty):
+    if ty in ("string", "bytes"):
+        return b""
+    if ty == "float":
+        return F32(0)
+    if ty == "double":
+        return F64(0)
+    return 0
+
+
+def enc_value(ty, v, enc_msg=None):
+    """the bytes after the tag (LEN types include the length prefix)"""
+    if ty in ("int32", "int64", "enum", "uint32", "uint64"):
+        return enc_varint(v)                      # negative: two's complement in 64 bits
+    if ty == "sint32":
+        return enc_varint(zigzag(v, 32))
+    if ty == "sint64":
+        return enc_varint(zigzag(v, 64))
+    if ty == "bool":
+        return b"\x01" if v else b"\x00"
+    if ty in ("fixed32", "sfixed32"):
+        return struct.pack("<I", v & M32)
+    if ty in ("fixed64", "sfixed64"):
+        return struct.pack("<Q", v & M64)
+    if ty == "float":
+        return struct.pack("<I", v[2])
+    if ty == "double":
+        return struct.pack("<Q", v[2])
+    if ty in ("string", "bytes"):
+        return enc_varint(len(v)) + v
+    if ty == "message":
+        body = enc_msg(v)
+        return enc_varint(len(body)) + body
+    raise ValueError(ty)
+
+
+class Style:
+    """how the reference encoder lays a value out; every combination is a valid encoding.
+    order         'number' ascending field number | 'decl' declaration order | 'shuffle' random
+                  interleaving (records of one field / one oneof keep their relative order)
+    packing       'decl' as the schema says | 'packed' | 'unpacked' | 'mixed' (random chunks, some
+                  packed some not, occasionally an empty packed chunk)
+    defaults      'omit' | 'present' | 'random'   proto3 implicit-presence fields holding the default
+    map_defaults  'present' | 'omit' | 'random'   default key / default value inside a map entry
+    map_value_first  False | True | 'random'      value record before the key record
+    unknowns      0 | probability per record boundary | 'all' (one unknown field at every record
+                  boundary at every nesting level, incl. inside map entries)
+    split         probability that an embedded singular message is written as two records that a
+                  decoder has to merge (only used by the C18 generators)"""
+    def __init__(self, name="canonical", order="number", packing="decl", defaults="omit",
+                 map_defaults="present", map_value_first=False, unknowns=0, split=0):
+        self.name, self.order, self.packing, self.defaults = name, order, packing, defaults
+        self.map_defaults, self.map_value_first, self.unknowns, self.split = map_defaults, map_value_first, unknowns, split
+
+    def __repr__(self):
+        return "<Style %s>" % self.name
+
+
+CANONICAL = Style()
+STYLES = [
+    CANONICAL,
+    Style("decl-order", order="decl"),
+    Style("shuffled", order="shuffle"),
+    Style("packed", packing="packed"),
+    Style("unpacked", packing="unpacked"),
+    Style("mixed-chunks", packing="mixed", order="shuffle"),
+    Style("defaults-present", defaults="present"),
+    Style("map-defaults-omitted", map_defaults="omit"),
+    Style("map-value-first", map_value_first=True),
+    Style("wild", order="shuffle", packing="mixed", defaults="random", map_defaults="random", map_value_first="random"),
+    Style("wild-unknowns", order="shuffle", packing="mixed", defaults="random", map_defaults="random",
+          map_value_first="random", unknowns=0.3),
+]
+STYLE_BY_NAME = {s.name: s for s in STYLES}
+UNKNOWN_ALL = Style("unknowns-everywhere", unknowns="all")
+PILOTA_LIKE = Style("pilota-like", order="decl", packing="unpacked", defaults="present", map_defaults="omit")
+
+
+def _choose(rng, opt, a, b):
+    if opt == "random":
+        return rng.choice([a, b])
+    return opt
+
+
+def gen_unknown(msg, rng, depth=0):
+    """one well-formed record with a field number the message does not declare"""
+    known = msg.by_number if msg is not None else {}
+    while True:
+        n = rng.choice([rng.randrange(1, 64), rng.randrange(1, 4096), rng.randrange(1, MAX_FIELD + 1), MAX_FIELD, 19000])
+        if n not in known:
+            break
+    return _unknown_record(n, rng, depth)
+
+
+def _unknown_record(n, rng, depth):
+    kinds = ["varint", "i64", "len", "i32"] + (["group"] * 2 if depth < 3 else [])
+    k = rng.choice(kinds)
+    if k == "varint":
+        return enc_tag(n, 0) + enc_varint(rng.choice([0, 1, 127, 128, M64, rng.getrandbits(64)]))
+    if k == "i64":
+        return enc_tag(n, 1) + bytes(rng.getrandbits(8) for _ in range(8))
+    if k == "i32":
+        return enc_tag(n, 5) + bytes(rng.getrandbits(8) for _ in range(4))
+    if k == "len":
+        ln = rng.choice([0, 1, 2, 5, 127, 128, 300])
+        return enc_tag(n, 2) + enc_varint(ln) + bytes(rng.getrandbits(8) for _ in range(ln))
+    # a group: any records inside (their numbers may coincide with declared fields: they are
+    # inside an unknown field and have to be skipped all the same), closed by EGROUP of the same number
+    body = b"".join(_unknown_record(rng.choice([1, 2, 3, n, rng.randrange(1, MAX_FIELD + 1)]), rng, depth + 1)
+                    for _ in range(rng.choice([0, 1, 1, 2, 3])))
+    return enc_tag(n, 3) + body + enc_tag(n, 4)
+
+
+def ref_records(msg, value, rng=None, style=None):
+    """list of (order_group, record_bytes): order_group identifies the field (the oneof for oneof
+    members) whose records must keep their relative order"""
+    st = style or CANONICAL
+    rng = rng or random.Random(0)
+    recs = []      # (sort_number, group, bytes)
+
+    def enc_msg(ref):
+        return lambda v: ref_encode(ref, v, rng, st)
+
+    def one(gid, number, ty, v, ref=None):
+        if ty == "message" and st.split and rng.random() < st.split and len(v) > 1:
+            # the same embedded message as two records, each carrying part of the slots
+            a, b = split_value(ref, v, rng)
+            for part in (a, b):
+                recs.append((number, gid, enc_tag(number, 2) + enc_value("message", part, enc_msg(ref))))
+            return
+        recs.append((number, gid, enc_tag(number, WIRE_TYPE[ty]) + enc_value(ty, v, enc_msg(ref) if ref else None)))
+
+    for si, sl in enumerate(msg.slots):
+        v = value[si]
+        if sl.kind in ("s", "w"):
+            if sl.implicit and sl.ty != "message" and v == scalar_default(sl.ty):
+                if _choose(rng, st.defaults, "omit", "present") == "omit":
+                    continue
+            one(si, sl.number, sl.ty, v, sl.ref)
+        elif sl.kind == "o":
+            if v is not None:
+                one(si, sl.number, sl.ty, v, sl.ref)
+        elif sl.kind == "u":
+            if v is not None:
+                m = sl.members[v[0]]
+                one(si, m.number, m.ty, v[1], m.ref)
+        elif sl.kind == "r":
+            if not _packable(sl.ty):
+                for x in v:
+                    one(si, sl.number, sl.ty, x, sl.ref)
+                continue
+            mode = st.packing
+            if mode == "decl":
+                mode = "packed" if sl.packed_decl else "unpacked"
+            if mode == "packed":
+                chunks = [("p", v)] if v else []
+            elif mode == "unpacked":
+                chunks = [("u", [x]) for x in v]
+            else:
+                chunks, i = [], 0
+                while i < len(v):
+                    if rng.random() < 0.5:
+                        k = rng.choice([1, 1, 2, 3, 7])
+                        chunks.append(("p", v[i:i + k])); i += k
+                    else:
+                        chunks.append(("u", [v[i]])); i += 1
+                    if rng.random() < 0.1:
+                        chunks.append(("p", []))
+                if not v and rng.random() < 0.3:
+                    chunks.append(("p", []))
+            for kind, xs in chunks:
+                if kind == "u":
+                    recs.append((sl.number, si, enc_tag(sl.number, WIRE_TYPE[sl.ty]) + enc_value(sl.ty, xs[0])))
+                else:
+                    body = b"".join(enc_value(sl.ty, x) for x in xs)
+                    recs.append((sl.number, si, enc_tag(sl.number, 2) + enc_varint(len(body)) + body))
+        elif sl.kind == "m":
+            for k, x in v:
+                kd = k == scalar_default(sl.kty)
+                vd = (sl.ty != "message" and x == scalar_default(sl.ty))
+                parts = []
+                if not (kd and _choose(rng, st.map_defaults, "present", "omit") == "omit"):
+                    parts.append(enc_tag(1, WIRE_TYPE[sl.kty]) + enc_value(sl.kty, k))
+                if not (vd and _choose(rng, st.map_defaults, "present", "omit") == "omit"):
+                    parts.append(enc_tag(2, WIRE_TYPE[sl.ty]) + enc_value(sl.ty, x, enc_msg(sl.ref) if sl.ref else None))
+                if _choose(rng, st.map_value_first, False, True):
+                    parts.reverse()
+                parts = _with_unknowns(None, parts, rng, st, in_entry=True)
+                body = b"".join(parts)
+                recs.append((sl.number, si, enc_tag(sl.number, 2) + enc_varint(len(body)) + body))
+    if st.order == "number":
+        recs.sort(key=lambda r: r[0])          # stable: records of one field keep their order
+    elif st.order == "shuffle":
+        recs = _interleave_groups(recs, rng)
+    out = [(g, b) for _, g, b in recs]
+    if st.unknowns:
+        out = _with_unknowns(msg, out, rng, st, wrap=lambda b: (-1, b))     # unknown records: group -1
+    return out
+
+
+def _with_unknowns(msg, parts, rng, st, in_entry=False, wrap=None):
+    if not st.unknowns:
+        return parts
+    res = []
+    def unk():
+        if in_entry:
+            # inside a map entry everything except numbers 1 and 2 is unknown
+            b = _unknown_record(rng.choice([3, 4, 15, 16, 2047, MAX_FIELD]), rng, 1)
+        else:
+            b = gen_unknown(msg, rng)
+        return wrap(b) if wrap else b
+    for i in range(len(parts) + 1):
+        if st.unknowns == "all" or rng.random() < st.unknowns:
+            res.append(unk())
+        if i < len(parts):
+            res.append(parts[i])
+    return res
+
+
+def _interleave_groups(recs, rng):
+    """random permutation that keeps the relative order of records with the same group"""
+    groups = {}
+    for r in recs:
+        groups.setdefault(r[1], []).append(r)
+    order = [g for g, rs in groups.items() for _ in rs]
+    rng.shuffle(order)
+    its = {g: iter(rs) for g, rs in groups.items()}
+    return [next(its[g]) for g in order]
+
+
+def ref_encode(msg, value, rng=None, style=None):
+    return b"".join(b for _, b in ref_records(msg, value, rng, style))
+
+
+def split_value(msg, v, rng):
+    """two values whose field-wise merge is v (used to write one embedded message as two records)"""
+    a, b = default_value(msg), default_value(msg)
+    for si, sl in enumerate(msg.slots):
+        x = v[si]
+        if sl.kind == "r":
+            k = rng.randrange(len(x) + 1)
+            a[si], b[si] = x[:k], x[k:]
+        elif sl.kind == "m":
+            k = rng.randrange(len(x) + 1)
+            a[si], b[si] = x[:k], x[k:]
+        elif sl.kind in ("s", "w"):
+            # bare fields are always written by pilota, implicit ones may be omitted by others:
+            # the second record carries the real value, the first one anything
+            if sl.ty != "message" and rng.random() < 0.5:
+                a[si] = x
+            b[si] = x
+        else:
+            if rng.random() < 0.5:
+                a[si] = x
+            else:
+                b[si] = x
+    return a, b
+
+
+def default_value(msg):
+    out = []
+    for sl in msg.slots:
+        if sl.kind in ("s", "w"):
+            out.append(default_value(sl.ref) if sl.ty == "message" else scalar_default(sl.ty))
+        elif sl.kind in ("o", "u"):
+            out.append(None)
+        else:
+            out.append([])
+    return out
+
+
+# ---- decoding
+
+class _Rd:
+    def __init__(self, data, pos=0, end=None):
+        self.d, self.p, self.e = data, pos, len(data) if end is None else end
+
+    def more(self):
+        return self.p < self.e
+
+    def varint(self):
+        n, shift, i = 0, 0, 0
+        while True:
+            if self.p >= self.e:
+                raise RefError("varint", "truncated varint")
+            b = self.d[self.p]; self.p += 1; i += 1
+            if i == 10 and b > 1:
+                raise RefError("varint", "varint does not fit 64 bits")
+            n |= (b & 0x7f) << shift
+            shift += 7
+            if not b & 0x80:
+                return n
+            if i == 10:
+                raise RefError("varint", "varint longer than ten bytes")
+
+    def take(self, n):
+        if n > self.e - self.p:
+            raise RefError("underflow", "%d bytes wanted, %d left" % (n, self.e - self.p))
+        x = self.d[self.p:self.p + n]; self.p += n
+        return x
+
+    def key(self):
+        k = self.varint()
+        if k > M32:
+            raise RefError("key", "key %d" % k)
+        wt, n = k & 7, k >> 3
+        if wt > 5:
+            raise RefError("wiretypevalue", "wire type %d" % wt)
+        if n == 0:
+            raise RefError("tagzero", "field number 0")
+        return n, wt
+
+
+def _skip(rd, n, wt, c, strict_unknown_depth=False):
+    """skips one unknown field whose key has been read; c = remaining nesting budget"""
+    if wt == WT_VARINT:
+        rd.varint()
+    elif wt == WT_I64:
+        rd.take(8)
+    elif wt == WT_I32:
+        rd.take(4)
+    elif wt == WT_LEN:
+        rd.take(rd.varint())
+    elif wt == WT_SGROUP:
+        if c <= 0:
+            raise RefError("recursion", "group nested too deeply")
+        while True:
+            if not rd.more():
+                raise RefError("varint", "unterminated group")
+            n2, wt2 = rd.key()
+            if wt2 == WT_EGROUP:
+                if n2 != n:
+                    raise RefError("endgroup", "group %d closed by %d" % (n, n2))
+                return
+            _skip(rd, n2, wt2, c - 1)
+    else:
+        raise RefError("endgroup", "end group without start")
+
+
+def _dec_scalar(ty, wt, rd):
+    if wt != WIRE_TYPE[ty]:
+        raise RefError("wiretype", "%s with wire type %d" % (ty, wt))
+    if ty == "int32" or ty == "enum":
+        return to_signed(rd.varint(), 32)
+    if ty == "int64":
+        return to_signed(rd.varint(), 64)
+    if ty == "uint32":
+        return rd.varint() & M32
+    if ty == "uint64":
+        return rd.varint()
+    if ty == "sint32":
+        return unzigzag(rd.varint() & M32)
+    if ty == "sint64":
+        return unzigzag(rd.varint())
+    if ty == "bool":
+        return 1 if rd.varint() else 0
+    if ty == "fixed32":
+        return struct.unpack("<I", rd.take(4))[0]
+    if ty == "sfixed32":
+        return struct.unpack("<i", rd.take(4))[0]
+    if ty == "fixed64":
+        return struct.unpack("<Q", rd.take(8))[0]
+    if ty == "sfixed64":
+        return struct.unpack("<q", rd.take(8))[0]
+    if ty == "float":
+        return F32(struct.unpack("<I", rd.take(4))[0])
+    if ty == "double":
+        return F64(struct.unpack("<Q", rd.take(8))[0])
+    if ty in ("string", "bytes"):
+        return bytes(rd.take(rd.varint()))
+    raise ValueError(ty)
+
+
+def _dec_into(msg, value, rd, c):
+    """merges the records of rd into value (a canonical message value with maps as dicts)"""
+    while rd.more():
+        n, wt = rd.key()
+        ent = msg.by_number.get(n)
+        if ent is None:
+            _skip(rd, n, wt, c)
+            continue
+        si, mi = ent
+        sl = msg.slots[si]
+        if sl.kind == "u":
+            m = sl.members[mi]
+            cur = value[si]
+            if m.ty == "message":
+                base = cur[1] if (cur is not None and cur[0] == mi) else _dflt(m.ref)
+                value[si] = (mi, _dec_sub(m.ref, base, wt, rd, c))
+            else:
+                value[si] = (mi, _dec_scalar(m.ty, wt, rd))
+        elif sl.kind in ("s", "w", "o"):
+            if sl.ty == "message":
+                base = value[si] if value[si] is not None else _dflt(sl.ref)
+                value[si] = _dec_sub(sl.ref, base, wt, rd, c)
+            else:
+                value[si] = _dec_scalar(sl.ty, wt, rd)
+        elif sl.kind == "r":
+            if sl.ty == "message":
+                value[si].append(_dec_sub(sl.ref, _dflt(sl.ref), wt, rd, c))
+            elif _packable(sl.ty) and wt == WT_LEN:
+                sub = rd.take(rd.varint())
+                r2 = _Rd(sub)
+                while r2.more():
+                    value[si].append(_dec_scalar(sl.ty, WIRE_TYPE[sl.ty], r2))
+            else:
+                value[si].append(_dec_scalar(sl.ty, wt, rd))
+        elif sl.kind == "m":
+            if wt != WT_LEN:
+                raise RefError("wiretype", "map entry with wire type %d" % wt)
+            if c <= 0:
+                raise RefError("recursion", "map entry nested too deeply")
+            r2 = _Rd(rd.take(rd.varint()))
+            k = scalar_default(sl.kty)
+            v = _dflt(sl.ref) if sl.ty == "message" else scalar_default(sl.ty)
+            while r2.more():
+                n2, wt2 = r2.key()
+                if n2 == 1:
+                    k = _dec_scalar(sl.kty, wt2, r2)
+                elif n2 == 2:
+                    if sl.ty == "message":
+                        v = _dec_sub(sl.ref, v, wt2, r2, c - 1)
+                    else:
+                        v = _dec_scalar(sl.ty, wt2, r2)
+                else:
+                    _skip(r2, n2, wt2, c - 1)
+            value[si][k] = v
+    return value
+
+
+def _dec_sub(ref, base, wt, rd, c):
+    if wt != WT_LEN:
+        raise RefError("wiretype", "embedded message with wire type %d" % wt)
+    if c <= 0:
+        raise RefError("recursion", "message nested too deeply")
+    sub = rd.take(rd.varint())
+    return _dec_into(ref, base, _Rd(sub), c - 1)
+
+
+def _dflt(msg):
+    """default value in decoder-internal form (maps as dicts)"""
+    out = []
+    for sl in msg.slots:
+        if sl.kind in ("s", "w"):
+            out.append(_dflt(sl.ref) if sl.ty == "message" else scalar_default(sl.ty))
+        elif sl.kind in ("o", "u"):
+            out.append(None)
+        elif sl.kind == "m":
+            out.append({})
+        else:
+            out.append([])
+    return out
+
+
+def _to_internal(msg, v):
+    out = []
+    for sl, x in zip(msg.slots, v):
+        if sl.kind == "m":
+            out.append({k: (_to_internal(sl.ref, y) if sl.ty == "message" else y) for k, y in x})
+        elif sl.kind == "u":
+            if x is not None and sl.members[x[0]].ty == "message":
+                x = (x[0], _to_internal(sl.members[x[0]].ref, x[1]))
+            out.append(x)
+        elif sl.ty == "message":
+            if sl.kind == "r":
+                out.append([_to_internal(sl.ref, y) for y in x])
+            else:
+                out.append(None if x is None else _to_internal(sl.ref, x))
+        else:
+            out.append(list(x) if sl.kind == "r" else x)
+    return out
+
+
+def _key_sort(k):
+    return (0, k) if isinstance(k, int) else (1, k)
+
+
+def _to_canon(msg, v):
+    out = []
+    for sl, x in zip(msg.slots, v):
+        if sl.kind == "m":
+            items = [(k, (_to_canon(sl.ref, y) if sl.ty == "message" else y)) for k, y in x.items()]
+            items.sort(key=lambda kv: _key_sort(kv[0]))
+            out.append(items)
+        elif sl.kind == "u":
+            if x is not None and sl.members[x[0]].ty == "message":
+                x = (x[0], _to_canon(sl.members[x[0]].ref, x[1]))
+            out.append(x)
+        elif sl.ty == "message":
+            if sl.kind == "r":
+                out.append([_to_canon(sl.ref, y) for y in x])
+            else:
+                out.append(None if x is None else _to_canon(sl.ref, x))
+        else:
+            out.append(x)
+    return out
+
+
+def ref_decode(msg, data, into=None, limit=RECURSION_LIMIT):
+    """canonical value of the wire bytes (raises RefError(cls)): last one wins for singular
+    scalars, repeated fields append (packed or not), map entries replace equal keys, a later oneof
+    member replaces an earlier one (the same message member merges), embedded messages merge
+    field-wise, unknown fields (incl. groups) are skipped.  `into`: canonical value to merge into"""
+    base = _to_internal(msg, into) if into is not None else _dflt(msg)
+    return _to_canon(msg, _dec_into(msg, base, _Rd(bytes(data)), limit))
+
+
+def ref_try(msg, data, into=None):
+    try:
+        return ("ok", ref_decode(msg, data, into))
+    except RefError as e:
+        return ("err", e.cls)
+
+
+def ref_merge_spec(msg, x, y, omit_defaults=False):
+    """value-level statement of protobuf merge: the value of decode(enc(x) ++ enc(y)).
+    omit_defaults=False: every bare ('s') field of y is on the wire (what pilota's encoder does, and
+    what proto2 `required` demands), so y's value wins; True: a conforming proto3 encoder left the
+    implicit-presence fields of y that hold the default off the wire, so x's value stays.
+    Wrapper pseudo messages always omit the default."""
+    out = []
+    for sl, a, b in zip(msg.slots, x, y):
+        if sl.kind in ("s", "w"):
+            if sl.ty == "message":
+                out.append(ref_merge_spec(sl.ref, a, b, omit_defaults))
+            elif (sl.kind == "w" or (omit_defaults and sl.implicit)) and b == scalar_default(sl.ty):
+                out.append(a)
+            else:
+                out.append(b)
+        elif sl.kind == "o":
+            if b is None:
+                out.append(a)
+            elif sl.ty == "message" and a is not None:
+                out.append(ref_merge_spec(sl.ref, a, b, omit_defaults))
+            else:
+                out.append(b)
+        elif sl.kind == "r":
+            out.append(list(a) + list(b))
+        elif sl.kind == "m":
+            d = dict(a)
+            d.update(dict(b))                 # a later entry replaces an earlier one with an equal key
+            out.append(sorted(d.items(), key=lambda kv: _key_sort(kv[0])))
+        elif sl.kind == "u":
+            if b is None:
+                out.append(a)
+            elif a is not None and a[0] == b[0] and sl.members[b[0]].ty == "message":
+                out.append((b[0], ref_merge_spec(sl.members[b[0]].ref, a[1], b[1], omit_defaults)))
+            else:
+                out.append(b)
+    return out
+
+
+def compare(a, b):
+    """None when the canonical values are equal, else a path + description of the first difference.
+    Floats are compared as bit patterns, except that any NaN equals any NaN (Rust's {:?} prints
+    only `NaN`, and a model may canonicalise the payload)."""
+    return _cmp(a, b, "")
+
+
+def _isnan(f):
+    if f[1] == 32:
+        return (f[2] & 0x7f800000) == 0x7f800000 and (f[2] & 0x7fffff) != 0
+    return (f[2] & 0x7ff0000000000000) == 0x7ff0000000000000 and (f[2] & 0xfffffffffffff) != 0
+
+
+def _cmp(a, b, path):
+    fa = isinstance(a, tuple) and len(a) == 3 and a[0] == "f"
+    fb = isinstance(b, tuple) and len(b) == 3 and b[0] == "f"
+    if fa or fb:
+        if fa and fb and a[1] == b[1] and (a[2] == b[2] or (_isnan(a) and _isnan(b))):
+            return None
+        return "%s: %r != %r" % (path or ".", a, b)
+    if isinstance(a, (list, tuple)) and isinstance(b, (list, tuple)):
+        if len(a) != len(b):
+            return "%s: %d elements != %d elements" % (path or ".", len(a), len(b))
+        for i, (x, y) in enumerate(zip(a, b)):
+            r = _cmp(x, y, "%s/%d" % (path, i))
+            if r:
+                return r
+        return None
+    if type(a) != type(b) and not (isinstance(a, int) and isinstance(b, int)):
+        return "%s: %r != %r" % (path or ".", _short(a), _short(b))
+    if a != b:
+        return "%s: %r != %r" % (path or ".", _short(a), _short(b))
+    return None
+
+
+def _short(x):
+    s = repr(x)
+    return s if len(s) < 80 else s[:77] + "..."
